@@ -104,6 +104,29 @@ impl Prop for C08 {
         out.push(Case { id: format!("forms;family=binop-pair;n={}.{}.{}", i, j, k), cell: format!("forms;family=binop-pair;form={}", k), input: json!({"src": src, "syntax_only": true}) });
       }
     } }
+    // kind annotations (every kind constructor, nested) and function definitions (one / several inputs and outputs)
+    let kinds = ["u8", "f64", "string", "bool", "u8?", "[u8]", "[f64]:2,3", "[u8]:3", "{u8}", "{string}", "{u8:string}", "{string:u8}", "{string:[u8]}", "{u8:{string}}", "(u8,string)", "(f64,f64,bool)", "{u8:string}?", "[{u8}]", "{(u8,string)}", "{x<f64>,y<u8>}", "[u8]:1,2?", "point", ":color"];
+    for (i, k) in kinds.iter().enumerate() {
+      for (j, src) in [format!("x<{}> := y", k), format!("~x<{}> := y", k), format!("<t{}> := <{}>", i, k), format!("f(a<{}>) = b<{}> :=\n    b := a.", k, k), format!("x := y<{}>", k), format!("f(a<{}>) => <{}>\n  | * => a.", k, k)].iter().enumerate() {
+        out.push(Case { id: format!("forms;family=kind-annotation;n={}.{}", i, j), cell: "forms;family=kind-annotation".into(), input: json!({"src": src, "syntax_only": true}) });
+      }
+    }
+    for (i, src) in [
+      "foo(x<f64>) = z<f64> :=\n    z := x + 1.",
+      "foo(x<f64>, y<u8>) = z<f64> :=\n    z := x + 1.",
+      "foo(x<f64>) = (a<f64>, b<f64>) :=\n    a := x + 1\n    b := x * 2.",
+      "foo(x<f64>, y<f64>) = (a<f64>, b<u8>, c<string>) :=\n    a := x + y\n    b := 2u8\n    c := \"s\".",
+      "foo() = z<f64> :=\n    z := 1.",
+      "foo(x<f64>) = z<f64> :=\n    w := x * 2\n    z := w + 1.",
+      "f(x<u64>) => <u64>\n  | 0 => 1\n  | n => n * 2.",
+      "f(x<u64>, y<u64>) => <u64>\n  | (0, y) => y\n  | (x, y) => x + y.",
+      "f(x<u64>) => <u64>\n  | n, n > 3u64 => 1\n  | * => 0.",
+      "r := x?\n  | 1 => 2\n  | * => 3.",
+      "r := (a, b)?\n  | (1, y) => y\n  | * => 0.",
+      "(p, q) := foo(1.0)", "(p, q, r) := t", "r := foo(1, 2)", "r := foo(a: 1, b: 2)", "r := m/n/foo(x)",
+    ].iter().enumerate() {
+      out.push(Case { id: format!("forms;family=function;n={}", i), cell: "forms;family=function".into(), input: json!({"src": src, "syntax_only": true}) });
+    }
     for (i, src) in ["x := -a", "x := !a", "x := ¬a", "x := a'", "x := -a'", "x := -(a + b)", "x := !(a && b)", "x := (a + b)'", "x := -a ^ 2", "x := (-a) ^ 2", "x := -(a ^ 2)", "x := a ^ -b", "x := - a", "x := a'[1]", "x := -a[1]", "x := -f(a)", "x := !a.b", "x := a.b'"].iter().enumerate() {
       out.push(Case { id: format!("forms;family=unary;n={}", i), cell: "forms;family=unary".into(), input: json!({"src": src, "syntax_only": true}) });
     }
